@@ -267,7 +267,9 @@ def c08_sweep(binary, jobs=64):
         p = subprocess.run([binary, 'sweep08', str(j), str(jobs), '1'], stdout=subprocess.PIPE, stderr=subprocess.PIPE,
                            text=True, timeout=3600)
         if p.returncode != 0:
-            return 'SWEEP08CRASH job=%d rc=%d %s' % (j, p.returncode, p.stderr[-2000:].replace('\n', ' | '))
+            zs = _re.findall(r'SWEEP08ZONE (b|x) (\d+)', p.stdout)
+            return 'SWEEP08CRASH job=%d rc=%d zone=%s %s' % (j, p.returncode, ('%s,%s' % zs[-1]) if zs else '?',
+                                                            p.stderr[-2000:].replace('\n', ' | '))
         return p.stdout
 
     zones = pairs = checks = 0
@@ -275,7 +277,20 @@ def c08_sweep(binary, jobs=64):
     with ThreadPoolExecutor(max_workers=int(os.environ.get('VERIF_WORKERS', '0') or 0) or min(16, os.cpu_count() or 4)) as ex:
         for out in ex.map(job, range(jobs)):
             if out.startswith('SWEEP08CRASH'):
-                raise K.HarnessError('sweep08 died outside a trace: ' + out[:2500])
+                mz = _re.search(r'zone=(b|x),(\d+)', out)
+                if not mz:
+                    raise K.HarnessError('sweep08 died outside a trace: ' + out[:2500])
+                if viol is None:
+                    # a crash / sanitizer report inside the walk of one zone: confirm on that zone alone
+                    again = subprocess.run([binary, 'sweep08', '0', '1', '1', mz.group(1), mz.group(2)], stdout=subprocess.PIPE,
+                                           stderr=subprocess.PIPE, text=True, timeout=900)
+                    if again.returncode == 0:
+                        raise K.HarnessError('sweep08 died in a batch but not on the zone alone: ' + out[:2000])
+                    line = (_re.findall(r'(runtime error:[^|\n]*|ERROR: AddressSanitizer:[^|\n]*|SUMMARY:[^|\n]*)', again.stderr) or ['crash'])[0]
+                    viol = {'trace': 'sweep08 zone %s %s' % (mz.group(1), mz.group(2)), 'min_trace': 'simdev sweep08 0 1 1 %s %s' % (mz.group(1), mz.group(2)),
+                            'tests': 0, 'vclass': 'c08-sweep-crash', 'msg': 'the ordered-pair walk of this zone dies: ' + line[:300],
+                            'extra': {'engine': 'sweep08', 'db': mz.group(1), 'zone_index': int(mz.group(2))}}
+                continue
             m = _re.search(r'SWEEP08 zones=(\d+) pairs=(\d+) checks=(\d+)', out)
             if not m:
                 raise K.HarnessError('sweep08 produced no summary line')
@@ -454,6 +469,24 @@ def run_sim_check(prop, tier, verif_seed, spec=None, runs_override=None):
     notes = []
     violations = 1 if regressed else 0
     exit_code = 1 if regressed else 0
+    # The two supplementary C09 stages run FIRST: they take seconds, and if their tools cannot be built here that is
+    # known before the long campaign, not after it.
+    gen_zones = None
+    if spec.get('gen_stage') and exit_code == 0 and not runs_override:
+        from . import genm3 as G
+        gen_zones, gpath = G.sweep(prop, tier, verif_seed)
+        if gpath:
+            print('VIOLATION property=%s replay=%s' % (prop, gpath))
+            violations += 1
+            exit_code = 1
+    msan_info = None
+    if spec.get('msan_stage') and exit_code == 0 and not runs_override:
+        from . import msanprobe as M
+        msan_info, mpath = M.sweep(prop, tier, verif_seed)
+        if mpath:
+            print('VIOLATION property=%s replay=%s' % (prop, mpath))
+            violations += 1
+            exit_code = 1
     for profile, variant in (spec['profiles'] if not regressed else []):
         binary = B.build(variant)
         variants.append(variant)
@@ -573,22 +606,6 @@ def run_sim_check(prop, tier, verif_seed, spec=None, runs_override=None):
                 violations += 1
                 exit_code = 1
                 break
-    gen_zones = None
-    if spec.get('gen_stage') and exit_code == 0 and not runs_override:
-        from . import genm3 as G
-        gen_zones, gpath = G.sweep(prop, tier, verif_seed)
-        if gpath:
-            print('VIOLATION property=%s replay=%s' % (prop, gpath))
-            violations += 1
-            exit_code = 1
-    msan_info = None
-    if spec.get('msan_stage') and exit_code == 0 and not runs_override:
-        from . import msanprobe as M
-        msan_info, mpath = M.sweep(prop, tier, verif_seed)
-        if mpath:
-            print('VIOLATION property=%s replay=%s' % (prop, mpath))
-            violations += 1
-            exit_code = 1
     py_half = None
     if spec.get('py_stage') and exit_code == 0:
         from pysim import check as P
@@ -673,7 +690,7 @@ def run_sim_check(prop, tier, verif_seed, spec=None, runs_override=None):
         'violations': violations,
     }
     try:
-        K.write_evidence(prop, doc)
+        K.write_evidence(prop, doc, dev=bool(runs_override))
     except K.HarnessError as e:
         if exit_code != 1:
             raise
